@@ -14,6 +14,7 @@ import (
 )
 
 var _ = vp.Reg("PerCall", H_PerCall)
+var _ = vp.Reg("SetNRegCall", H_SetNRegCall)
 var _ = vp.Reg("Runs", H_Runs)
 var _ = vp.Reg("Mixed", H_Mixed)
 var _ = vp.Reg("Transcode", H_Transcode)
@@ -49,6 +50,20 @@ func realOK(c, d float32) bool { return vp.Or(d == c, within4(c, d)) }
 // adj / incr / flags / colour, numbers equal up to the format's quantisation.
 func H_PerCall() {
 	k := drive.KSetCSel + vp.Choice("call", drive.NumCalls-drive.KSetCSel)
+	if k == drive.KSetNReg {
+		return // H_SetNRegCall (three candidate encodings per number: split by binade group)
+	}
+	perCall(k)
+}
+
+// H_SetNRegCall: SetNReg with a fully arbitrary float32 (the Encoder tries the
+// real, coordinate and zero-to-one forms and keeps a shortest one); the 2^32
+// values are split into 16 groups by the top four bits (exhaustive).
+func H_SetNRegCall() {
+	perCall(drive.KSetNReg)
+}
+
+func perCall(k int) {
 	hires := vp.Choice("hires", 2) == 1
 	var a drive.Args
 	a.Adj, a.Incr = vp.U8("adj"), vp.Bool("incr")
@@ -72,6 +87,9 @@ func H_PerCall() {
 	for i := 0; i < n; i++ {
 		if i == hot {
 			a.F[i] = vp.F32("f")
+			if k == drive.KSetNReg {
+				vp.Assume(int(math.Float32bits(a.F[i])>>28) == vp.Choice("group", 16))
+			}
 		} else {
 			a.F[i] = float32(2*i - 5) // distinct concrete short-form values: swapped operands show
 		}
